@@ -20,19 +20,21 @@ package main
 
 import (
 	"bytes"
-	"os"
-	"time"
 	"encoding/binary"
 	"fmt"
+	"os"
 	"sort"
 	"strings"
+	"time"
 
 	"github.com/nspcc-dev/neo-go/pkg/config"
 	"github.com/nspcc-dev/neo-go/pkg/core"
 	"github.com/nspcc-dev/neo-go/pkg/core/block"
 	"github.com/nspcc-dev/neo-go/pkg/core/mpt"
 	"github.com/nspcc-dev/neo-go/pkg/core/native/nativenames"
+	"github.com/nspcc-dev/neo-go/pkg/core/state"
 	"github.com/nspcc-dev/neo-go/pkg/core/statesync"
+	"github.com/nspcc-dev/neo-go/pkg/core/storage"
 	"github.com/nspcc-dev/neo-go/pkg/core/transaction"
 	"github.com/nspcc-dev/neo-go/pkg/neotest"
 	"github.com/nspcc-dev/neo-go/pkg/smartcontract"
@@ -74,7 +76,7 @@ func callScript(h util.Uint160, method string, args ...any) []byte {
 	return b
 }
 
-func protoCfg(net *chainx.Net, interval, mtb int, syncing bool) config.Blockchain {
+func protoCfg(net *chainx.Net, interval, mtb int, syncing bool, storageMode ...bool) config.Blockchain {
 	return net.BaseConfig(func(c *config.Blockchain) {
 		c.StateRootInHeader = true
 		c.P2PStateExchangeExtensions = true
@@ -87,6 +89,12 @@ func protoCfg(net *chainx.Net, interval, mtb int, syncing bool) config.Blockchai
 		if syncing {
 			c.KeepOnlyLatestState = true
 			c.RemoveUntraceableBlocks = true
+			if len(storageMode) > 0 && storageMode[0] {
+				c.P2PStateExchangeExtensions = false
+				c.NeoFSStateSyncExtensions = true
+				c.NeoFSStateFetcher.Enabled = true
+				c.NeoFSBlockFetcher.Enabled = true
+			}
 		}
 	})
 }
@@ -214,19 +222,23 @@ func diffMaps(a, b map[string]string) string {
 }
 
 type kase struct {
-	k      int
-	o      *hx.Out
-	r      *prng.R
-	src    *source
-	sync   *chainx.Node
-	mod    *statesync.Module
-	P      uint32
-	root   util.Uint256
-	nodes  map[util.Uint256][]byte
-	id     map[util.Uint256]int
-	hashes []util.Uint256 // by id
-	trace  []string
-	failed bool
+	k        int
+	o        *hx.Out
+	r        *prng.R
+	src      *source
+	sync     *chainx.Node
+	mod      *statesync.Module
+	P        uint32
+	root     util.Uint256
+	nodes    map[util.Uint256][]byte
+	id       map[util.Uint256]int
+	hashes   []util.Uint256 // by id
+	trace    []string
+	failed   bool
+	storage  bool
+	kvs      []storage.KeyValue // the state at P in the order of the source's trie traversal
+	kvID     map[string]int
+	onReinit func() bool
 }
 
 func (c *kase) fail(key, format string, a ...any) {
@@ -251,7 +263,7 @@ func (c *kase) stage() string {
 }
 
 func (c *kase) pool() (string, []util.Uint256) {
-	if !c.mod.NeedStorageData() {
+	if !c.mod.NeedStorageData() || c.storage {
 		return "-", nil
 	}
 	hs := c.mod.GetUnknownMPTNodesBatch(1 << 30)
@@ -314,6 +326,10 @@ func runCase(k int, f *hx.Flags, o *hx.Out) {
 	plain := r.Chance(1, 3)
 	restartsInMPT := r.Chance(1, 2)
 	restartEvery := 6
+	storageMode := k >= 3 && r.Chance(1, 4)
+	if storageMode {
+		o.Count("profile:storage-items-mode")
+	}
 	if k < 3 {
 		// corpus: the repro of the fixed restart panic (0dd24d5): equal values under sibling keys / equal
 		// sub-tries, the module re-created from the DB after every batch
@@ -333,7 +349,7 @@ func runCase(k int, f *hx.Flags, o *hx.Out) {
 	defer c.src.node.Stop()
 	src := c.src.bc()
 	// log.Fatal inside the node (a failed state jump) must become an observation, not os.Exit
-	syncNode := &chainx.Node{Cfg: protoCfg(c.src.net, interval, mtb, true), Backend: chainx.NewBackend(chainx.Memory),
+	syncNode := &chainx.Node{Cfg: protoCfg(c.src.net, interval, mtb, true, storageMode), Backend: chainx.NewBackend(chainx.Memory),
 		Log: zap.New(zapcore.NewNopCore(), zap.WithFatalHook(zapcore.WriteThenPanic))}
 	if err := syncNode.Restart(); err != nil {
 		panic(err)
@@ -430,6 +446,16 @@ func runCase(k int, f *hx.Flags, o *hx.Out) {
 		o.Count("trie:has-equal-siblings")
 	}
 
+	c.storage = storageMode
+	if storageMode {
+		c.kvID = map[string]int{}
+		src.GetStateModule().SeekStates(c.root, nil, func(k, v []byte) bool {
+			c.kvID[string(k)] = len(c.kvs)
+			c.kvs = append(c.kvs, storage.KeyValue{Key: bytes.Clone(k), Value: bytes.Clone(v)})
+			return true
+		})
+		o.Line(fmt.Sprintf("smode %d", len(c.kvs)), "ok")
+	}
 	// ---- init
 	res, err := c.newModule()
 	c.line("init", res)
@@ -460,6 +486,9 @@ func runCase(k int, f *hx.Flags, o *hx.Out) {
 		if err != nil {
 			c.fail(map[bool]string{true: "restart-panic", false: "valid-data-error"}[res == "panic"], "re-creating the module from the DB during %s: %v", where, err)
 			return false
+		}
+		if c.onReinit != nil {
+			return c.onReinit()
 		}
 		return true
 	}
@@ -511,13 +540,123 @@ func runCase(k int, f *hx.Flags, o *hx.Out) {
 		}
 	}
 
+	// ---- raw contract storage items (ContractStorageBased mode)
+	if storageMode {
+		sroot := func() bool {
+			res, err := safeErr(func() error { return c.mod.InitContractStorageSync(state.MPTRoot{Index: c.P, Root: c.root}) })
+			c.line("sroot", res)
+			if err != nil {
+				c.fail("valid-data-error", "InitContractStorageSync: %v", err)
+				return false
+			}
+			return true
+		}
+		if !sroot() {
+			return
+		}
+		c.onReinit = func() bool {
+			if c.mod.NeedStorageData() {
+				return sroot()
+			}
+			return true
+		}
+		ordered := c.r.Chance(1, 2)
+		if ordered {
+			o.Count("storage:ordered-with-resume")
+		} else {
+			o.Count("storage:any-order")
+		}
+		good := make([]bool, len(c.kvs))
+		lskStr := func() string {
+			l := c.mod.GetLastStoredKey()
+			if len(l) == 0 {
+				return "lsk=-"
+			}
+			if i, ok := c.kvID[string(l)]; ok {
+				return fmt.Sprintf("lsk=%d", i)
+			}
+			return "lsk=?"
+		}
+		next := 0
+		for round := 0; c.mod.NeedStorageData(); round++ {
+			if round > 50*len(c.kvs)+50 {
+				c.fail("sync-incomplete", "module still needs storage items after %d rounds (%d items)", round, len(c.kvs))
+				return
+			}
+			var batch []storage.KeyValue
+			var desc []string
+			n := c.r.Range(1, 5)
+			if ordered {
+				// what the NeoFS state fetcher does: stream the items in order, after a (re)start skip up to the last stored key
+				for i := 0; i < n && next < len(c.kvs); i++ {
+					batch = append(batch, c.kvs[next])
+					desc = append(desc, fmt.Sprint(next))
+					good[next] = true
+					next++
+				}
+			} else {
+				for i := 0; i < n; i++ {
+					var cand []int
+					for j, g := range good {
+						if !g {
+							cand = append(cand, j)
+						}
+					}
+					j := c.r.Intn(len(c.kvs))
+					if len(cand) > 0 && c.r.Chance(2, 3) {
+						j = cand[c.r.Intn(len(cand))]
+					}
+					if c.r.Chance(1, 10) { // a wrong value for a key of the state; the right one must repair it later
+						batch = append(batch, storage.KeyValue{Key: c.kvs[j].Key, Value: append([]byte{0xee}, c.kvs[j].Value...)})
+						desc = append(desc, fmt.Sprintf("w%d", j))
+						good[j] = false
+						o.Count("storage:wrong-value")
+					} else {
+						batch = append(batch, c.kvs[j])
+						desc = append(desc, fmt.Sprint(j))
+						good[j] = true
+					}
+				}
+			}
+			if len(batch) == 0 {
+				c.fail("sync-incomplete", "all %d items were streamed in order but the module still needs storage data", len(c.kvs))
+				return
+			}
+			res, err := safeErr(func() error { return c.mod.AddContractStorageItems(batch) })
+			c.line("kvs "+strings.Join(desc, " "), res+" "+lskStr())
+			if err != nil {
+				c.fail(map[bool]string{true: "panic", false: "valid-data-error"}[res == "panic"], "AddContractStorageItems(%s): %v", strings.Join(desc, " "), err)
+				return
+			}
+			o.Count("storage:batch")
+			if c.mod.NeedStorageData() && c.r.Chance(1, 5) {
+				if !reinit("storage") {
+					return
+				}
+				if ordered {
+					// resume as the fetcher does
+					next = 0
+					if l := c.mod.GetLastStoredKey(); len(l) > 0 {
+						i, ok := c.kvID[string(l)]
+						if !ok {
+							c.fail("valid-data-error", "last stored key %x is not a key of the state", l)
+							return
+						}
+						next = i + 1
+					}
+				}
+			}
+		}
+		c.onReinit = nil
+	}
+
 	// ---- MPT nodes
 	delivered := map[util.Uint256]bool{}
 	foreign := func() []byte {
 		// a well-formed leaf that is not part of the trie
 		return bytes.Clone(mpt.NewLeafNode(append([]byte{0xfe, 0xed}, c.r.Bytes(3)...)).Bytes())
 	}
-	for round := 0; c.mod.NeedStorageData(); round++ {
+	for round := 0; !storageMode && c.mod.NeedStorageData(); round++ {
 		if round > 20*len(c.hashes)+50 {
 			c.fail("sync-incomplete", "module still needs MPT data after %d rounds (%d nodes in the trie)", round, len(c.hashes))
 			return
@@ -725,7 +864,10 @@ func main() {
 		}
 		o.Case(k)
 		wd := time.AfterFunc(120*time.Second, func() {
-			o.Fail("hang", k, "case did not finish within 120 s")
+			buf := make([]byte, 1<<20)
+			buf = buf[:runtime.Stack(buf, true)]
+			_ = os.WriteFile(filepath.Join(f.Out, fmt.Sprintf("hang-%d.txt", k)), buf, 0o644)
+			o.Fail("hang", k, "case did not finish within 120 s (goroutine dump in hang-%d.txt)", k)
 			o.Close()
 			os.Exit(0)
 		})
